@@ -198,24 +198,7 @@ func init() {
 			case 4:
 				// a shutdown that is held up by a slow process while the subject is in (or
 				// about to enter) its back-off wait
-				sc.Arm = "heldshutdown"
-				subject.Restart = Pick(r, "always", "on_failure")
-				subject.Backoff = iptr(Pick(r, 1, 2, 3))
-				subject.MaxRestarts = 0
-				subject.DependsOn = nil
-				life := Pick(r, 1000, 2000, 3500)
-				sc.Scripts[subject.Token] = &TokenScript{Launches: []simos.Script{{LifeMs: life, Exit: 1}}}
-				slow := &ProcSpec{Name: "slow", Token: "slow", StopTimeout: iptr(Pick(r, 4, 6, 9))}
-				if r.P(500) {
-					sc.OrderedShutdown = true
-					slow.StopTimeout = nil
-					slow.DependsOn = map[string]string{subject.Name: "process_started"}
-				}
-				sc.Scripts["slow"] = &TokenScript{Launches: []simos.Script{{LifeMs: -1, TermLagMs: Pick(r, 3000, 5000, 8000)}}}
-				sc.Project.Procs = append(sc.Project.Procs, slow)
-				at := life + Pick(r, -300, 100, 500, 900)
-				sc.Clients = append(sc.Clients, Client{Name: "sd", Ops: []Op{{AtMs: at, Op: "shutdown"}}})
-				sc.Strategy.StallPermille = 0
+				addHeldShutdown(r, sc, subject)
 			case 0:
 				sc.Arm = "nostop"
 			case 1:
@@ -348,6 +331,12 @@ func init() {
 				sc.RunForMs = 120000
 			}
 			GenCore(r, k, sc)
+			if sc.Arm == "" && r.P(100) {
+				// a process in its back-off while a project shutdown is held up by a slow one
+				addHeldShutdown(r, sc, sc.Project.Procs[r.Intn(len(sc.Project.Procs))])
+				sc.RunForMs = 40000
+				return sc
+			}
 			if sc.Arm == "" && r.P(150) {
 				// a pending process is stopped and started again while the goroutine of the
 				// stopped instance is still waiting for a dependency; another dependency is
@@ -432,6 +421,24 @@ func init() {
 						sc.Scripts[fmt.Sprintf("rep.%d", i)] = &TokenScript{Launches: []simos.Script{{LifeMs: -1, TermLagMs: Pick(r, 0, 200, 800, 2500)}}}
 					}
 					sc.Project.Procs = append(sc.Project.Procs, rp)
+				}
+			}
+			// a daemon among the dependents: it is "down" when its shutdown command has finished
+			if r.P(250) {
+				dep := sc.Project.Procs[r.Intn(len(sc.Project.Procs))]
+				if !dep.Disabled && dep.Replicas <= 1 {
+					if ts := sc.Scripts[dep.Token]; ts != nil {
+						for l := range ts.Launches {
+							ts.Launches[l].LifeMs, ts.Launches[l].StartErr = -1, "" // the dependency stays up until it is stopped
+						}
+					}
+					dm := &ProcSpec{Name: "dm", Token: "dm", IsDaemon: true, StopCmd: "dm", DependsOn: map[string]string{dep.Name: "process_started"}}
+					if r.P(500) {
+						dm.StopTimeout = iptr(Pick(r, 5, 8))
+					}
+					sc.Scripts["dm"] = &TokenScript{Launches: []simos.Script{{LifeMs: Pick(r, 50, 300), Exit: 0}}}
+					sc.Scripts["simstop:dm"] = &TokenScript{Launches: []simos.Script{{LifeMs: Pick(r, 500, 1500, 3000), Exit: 0}}}
+					sc.Project.Procs = append(sc.Project.Procs, dm)
 				}
 			}
 			// a dependent that the user is already stopping (and that dies slowly) when the
@@ -548,6 +555,22 @@ func init() {
 					}
 				}
 			}
+			if d := sc.Project.Procs[0]; r.P(250) && !d.Disabled && d.ReadyLine == "" && d.Readiness == nil {
+				// a daemon: its launcher takes a moment, requests meet it while it is Launching and
+				// after; it is stopped through its shutdown command
+				d.IsDaemon = true
+				d.StopCmd = d.Token
+				d.StopTimeout = nil
+				ts := sc.Scripts[d.Token]
+				for l := range ts.Launches {
+					ts.Launches[l] = simos.Script{LifeMs: Pick(r, 200, 1500, 3000), Exit: 0}
+				}
+				sc.Scripts["simstop:"+d.Token] = &TokenScript{Launches: []simos.Script{{LifeMs: Pick(r, 10, 300), Exit: 0}}}
+				if r.P(400) {
+					d.Liveness = &ProbeSpec{Token: d.Token, Period: iptr(1), FailureThreshold: iptr(Pick(r, 1, 2))}
+					sc.Scripts["simprobe:"+d.Token] = &TokenScript{Launches: []simos.Script{{LifeMs: 10, Exit: Pick(r, 0, 1)}, {LifeMs: 10, Exit: 1}, {LifeMs: 10, Exit: Pick(r, 0, 1)}}}
+				}
+			}
 			sc.Arm = "concurrent"
 			sc.RunForMs = 15000
 			sc.QuietMs = 5000
@@ -658,6 +681,29 @@ func init() {
 			return false
 		},
 	})
+}
+
+// addHeldShutdown: a shutdown that is held up by a slow process while the subject is in (or
+// about to enter) its back-off wait
+func addHeldShutdown(r *R, sc *Scenario, subject *ProcSpec) {
+	sc.Arm = "heldshutdown"
+	subject.Restart = Pick(r, "always", "on_failure")
+	subject.Backoff = iptr(Pick(r, 1, 2, 3))
+	subject.MaxRestarts = 0
+	subject.DependsOn = nil
+	life := Pick(r, 1000, 2000, 3500)
+	sc.Scripts[subject.Token] = &TokenScript{Launches: []simos.Script{{LifeMs: life, Exit: 1}}}
+	slow := &ProcSpec{Name: "slow", Token: "slow", StopTimeout: iptr(Pick(r, 4, 6, 9))}
+	if r.P(500) {
+		sc.OrderedShutdown = true
+		slow.StopTimeout = nil
+		slow.DependsOn = map[string]string{subject.Name: "process_started"}
+	}
+	sc.Scripts["slow"] = &TokenScript{Launches: []simos.Script{{LifeMs: -1, TermLagMs: Pick(r, 3000, 5000, 8000)}}}
+	sc.Project.Procs = append(sc.Project.Procs, slow)
+	at := life + Pick(r, -300, 100, 500, 900)
+	sc.Clients = append(sc.Clients, Client{Name: "sd", Ops: []Op{{AtMs: at, Op: "shutdown"}}})
+	sc.Strategy.StallPermille = 0
 }
 
 // addRedoPair appends a dependency X and a dependent D (process_log_ready or
